@@ -27,6 +27,19 @@ func fnShort(fn *ssa.Function) string {
 	return fn.Name()
 }
 
+func dynFieldName(u *ssa.UnOp) string {
+	fa, ok := u.X.(*ssa.FieldAddr)
+	if !ok {
+		return ""
+	}
+	p, ok := fa.X.(*ssa.Parameter)
+	if !ok {
+		return ""
+	}
+	st := fa.X.Type().Underlying().(*types.Pointer).Elem().Underlying().(*types.Struct)
+	return p.Name() + "." + st.Field(fa.Field).Name()
+}
+
 func (g *Gen) calleeContract(cc *ssa.CallCommon) *Contract {
 	if cc.IsInvoke() {
 		return g.world.contractForMethod(cc, g.fn)
@@ -39,6 +52,13 @@ func (g *Gen) calleeContract(cc *ssa.CallCommon) *Contract {
 	case *ssa.Parameter:
 		if g.c != nil && g.c.DynCallee != nil {
 			return g.c.DynCallee[f.Name()]
+		}
+	case *ssa.UnOp:
+		// a function-typed field loaded from a parameter: callee c.now
+		if g.c != nil && g.c.DynCallee != nil {
+			if n := dynFieldName(f); n != "" {
+				return g.c.DynCallee[n]
+			}
 		}
 	}
 	return nil
@@ -100,8 +120,22 @@ func (g *Gen) run() (err error) {
 		for pname, dc := range g.c.DynCallee {
 			for gname, rname := range dc.Bind {
 				for _, p := range fn.Params {
-					sig, ok := p.Type().Underlying().(*types.Signature)
-					if p.Name() != pname || !ok {
+					var sig *types.Signature
+					ok := false
+					if p.Name() == pname {
+						sig, ok = p.Type().Underlying().(*types.Signature)
+					} else if strings.HasPrefix(pname, p.Name()+".") {
+						if pt, isP := p.Type().Underlying().(*types.Pointer); isP {
+							if st, isS := pt.Elem().Underlying().(*types.Struct); isS {
+								for fi := 0; fi < st.NumFields(); fi++ {
+									if st.Field(fi).Name() == pname[len(p.Name())+1:] {
+										sig, ok = st.Field(fi).Type().Underlying().(*types.Signature)
+									}
+								}
+							}
+						}
+					}
+					if !ok {
 						continue
 					}
 					for i := 0; i < sig.Results().Len() && i < len(dc.ResultN); i++ {
@@ -112,6 +146,41 @@ func (g *Gen) run() (err error) {
 							g.emit("(declare-const " + n + " " + sort + ")")
 							g.emit("(assert " + g.wf(n, t, alloc0) + ")")
 							g.params[gname] = Val{S: n, Sort: sort, G: t}
+						}
+					}
+				}
+			}
+		}
+	}
+	// ghost names bound to results of particular calls (at call f#k: bind g = result)
+	if g.c != nil {
+		ord := map[string]int{}
+		for _, b := range fn.Blocks {
+			for _, in := range b.Instrs {
+				ci, ok := in.(ssa.CallInstruction)
+				if !ok {
+					continue
+				}
+				cc := ci.Common()
+				if _, isB := cc.Value.(*ssa.Builtin); isB {
+					continue
+				}
+				cn := calleeName(cc)
+				ord[cn]++
+				for _, cs := range g.c.Calls {
+					if cs.Callee != cn || cs.K != ord[cn] || cs.Bind == nil {
+						continue
+					}
+					names := g.resultNames(cc.Signature(), g.calleeContract(cc))
+					for gname, rname := range cs.Bind {
+						for i, rn := range names {
+							if rn == rname {
+								t := cc.Signature().Results().At(i).Type()
+								sort := g.m.sortOf(t)
+								n := "ghost_" + san(gname)
+								g.emit("(declare-const " + n + " " + sort + ")")
+								g.params[gname] = Val{S: n, Sort: sort, G: t}
+							}
 						}
 					}
 				}
